@@ -32,10 +32,24 @@ Streams
               (`layout` on the arity shadow) and passes the layout oracle.
   attr_spiders  the calls of nx.draw_networkx_nodes made by MatBackend.draw_spiders (read off the scatter
               collections on the axis) against Model/Spiders.lean (`spiders`)
+  draw_history  (oracle only) HISTORIES of drawing (attrlib.History): the SAME diagram and box objects drawn
+              2-4 times - Diagram.draw with TikZ / matplotlib in every order, diagram2nx alone, the diagram
+              tensored with itself, drawing.equation - with the user changing drawing attributes of its
+              boxes in between (draw_as_spider toggled, shape / color / drawing_name / tikzstyle_name set,
+              any of them deleted, draw_as_wires toggled).  Every draw must succeed and produce exactly
+              the output (TikZ text; every matplotlib artist; graph with the attributes its boxes carry) of
+              an EQUAL diagram built from FRESH box objects on which the user's operations are replayed;
+              and drawing must not change the user's objects
+  unchanged   in EVERY stream that draws (layout, bubble, attr, attr_equation, attr_pregroup, draw_history):
+              after diagram2nx / draw / equation / Equation.draw / Sum.draw / grammar.draw each box of the
+              argument (also the box under a Controlled gate and the boxes inside a bubble) is the same
+              object with exactly the `__dict__` it had before (keys, values by repr)
 Oracle (the property's own statement, on the real graph and exact coordinates)
   node census, edges = wiring, strictly increasing open wires at every height, vertical wires,
   every edge points down, every box (centre, ports and drawn polygon) strictly between its
-  neighbouring wires; both back-ends render without raising; every planar function body declared
+  neighbouring wires; both back-ends render without raising - also the second and later time the same
+  objects are drawn, with the picture of an equal fresh diagram (a drawing is a function of the diagram:
+  it neither depends on nor leaves traces in the user's objects); every planar function body declared
   with diagramize (fresh or re-used signature object) yields a well-typed diagram whose wiring -
   found by walking up the returned diagram - is the one the body describes;
   nx2diagram(diagram2nx(d)) == d.
@@ -269,6 +283,7 @@ def attr_stream(rep, rng, thorough, tmpdir, plt):
         """Run `draw(**kw)` with the TikZ back-end (file read back) and the matplotlib back-end
         (artists inspected on the open figure; rasterised to a PNG when `raster`)."""
         for backend in ("tikz", "matplotlib"):
+            before = attrlib.state(diagrams)
             try:
                 if backend == "tikz":
                     path = os.path.join(tmpdir, "a.tikz")
@@ -301,6 +316,13 @@ def attr_stream(rep, rng, thorough, tmpdir, plt):
             finally:
                 plt.close("all")
                 clean()
+            diff = attrlib.state_diff(before, attrlib.state(diagrams))
+            rep.count("unchanged_boxes_checked:attr_" + backend)
+            if diff:
+                rep.count("changed_boxes:attr_" + backend)
+                if rep.dist.get("changed_boxes:attr_" + backend, 0) <= 3:
+                    rep.fail("attr_%s_changes_user_boxes" % backend, dict(case, backend=backend),
+                             "; ".join(diff[:6]))
 
     # ---------------- generate
     cases = list(attrlib.pinned())
@@ -333,6 +355,7 @@ def attr_stream(rep, rng, thorough, tmpdir, plt):
             rep.count("attr_kw:%s=%r" % (name, v))
         if not kw:
             rep.count("attr_kw:defaults")
+        before = attrlib.state([d])
         try:
             graph, keys, pos, edges = real_layout(d)
         except AssertionError:
@@ -341,6 +364,12 @@ def attr_stream(rep, rng, thorough, tmpdir, plt):
             rep.fail("attr_diagram2nx_raises", case, repr(exc))
             censuses.append(None)
             continue
+        diff = attrlib.state_diff(before, attrlib.state([d]))
+        rep.count("unchanged_boxes_checked:attr_diagram2nx")
+        if diff:
+            rep.count("changed_boxes:attr_diagram2nx")
+            if rep.dist.get("changed_boxes:attr_diagram2nx", 0) <= 3:
+                rep.fail("attr_diagram2nx_changes_user_boxes", case, "; ".join(diff[:6]))
         real = canon(pos, edges, wiring(d)[0])
         if real != model:
             rep.disagree("attr_layout", dict(case, line=line[:2000]), real[:3000], model[:3000])
@@ -451,7 +480,8 @@ def attr_stream(rep, rng, thorough, tmpdir, plt):
             if got != names:
                 out.append(("attr_pregroup_word_names", "names %r, expected %r" % (got, names)))
             return out
-        both_backends(case, kw, lambda **q: grammar.draw(d, **q), on_tikz, on_fig, raster=(k % 5 == 0))
+        both_backends(case, kw, lambda **q: grammar.draw(d, **q), on_tikz, on_fig, raster=(k % 5 == 0),
+                      diagrams=[d])
 
     # ---------------- MatBackend.draw_spiders: the calls it made against the model's
     drv = Driver()
@@ -464,6 +494,74 @@ def attr_stream(rep, rng, thorough, tmpdir, plt):
         rep.count("attr_spiders_calls:%s" % (real.split()[1] if real.startswith("ok") else real))
         if real != model:
             rep.disagree("attr_spiders", dict(case, line=line[:1500]), real[:1500], model[:1500])
+
+
+# ------------------------------------------------------------------ histories of drawing (oracle only)
+
+def history_stream(rep, rng, thorough, tmpdir, plt):
+    """The SAME diagram objects drawn several times, drawing attributes changed in between, both
+    back-ends in both orders (attrlib.History).  Each draw must succeed, give the output of an EQUAL
+    diagram built from fresh objects with the user's attributes, and leave the user's boxes unchanged."""
+    n_hist = 30 if not thorough else 250
+    raster_every = 8 if not thorough else 4
+    todo = []
+    try:
+        todo += attrlib.pinned_histories()
+    except AssertionError:
+        raise
+    except Exception as exc:
+        rep.fail("hist_build_raises", dict(stream="draw_history", pinned=True), repr(exc)[:300])
+    for _ in range(n_hist):
+        hseed = rng.getrandbits(48)
+        try:
+            todo.append((attrlib.History(hseed), None))
+        except AssertionError:
+            raise
+        except Exception as exc:    # building the diagram (library constructors, >>, @) twice
+            rep.fail("hist_build_raises", dict(stream="draw_history", history_seed=hseed), repr(exc)[:300])
+    for k, (h, steps) in enumerate(todo):
+        sub = random.Random(h.seed ^ 0x5EED)
+        rep.count("hist_family:" + h.family)
+        rep.count("hist_histories")
+        n_steps = len(steps) if steps is not None else sub.choice([2, 3, 3, 4])
+        backends, failed, state_reported = [], False, False
+        for j in range(n_steps):
+            if steps is not None:
+                ops, action, kw = steps[j]
+            else:
+                ops = h.gen_ops(sub, first=(j == 0))
+                action, kw = sub.choice(attrlib.HIST_ACTIONS), dict(sub.choice(attrlib.HIST_KW))
+            fails, counts = h.step(ops, action, kw, tmpdir, plt, raster=(k % raster_every == 0),
+                                   shadow_done=steps is None)
+            for c in counts:
+                rep.count(c)
+            rep.count("hist_draws")
+            backends.append("tikz" if action.endswith("tikz") else "nx" if action == "nx" else "mpl")
+            # a change of the user's boxes is reported once per history; the history goes on (the
+            # output clause is judged on its own), it stops at the first failed draw
+            state_fails = [f for f in fails if f[0].endswith("_changes_user_boxes")]
+            other = [f for f in fails if f not in state_fails]
+            if state_fails and not state_reported:
+                rep.count("changed_boxes:hist")
+            report = other + ([] if state_reported or rep.dist.get("changed_boxes:hist", 0) > 3
+                              else state_fails[:1])
+            state_reported = state_reported or bool(state_fails)
+            if report:
+                case = h.describe()
+                for sig, text in report:
+                    rep.fail(sig, case, text)
+                failed = True
+            if other:
+                break
+        order = [b for b in backends if b != "nx"]
+        for a, b in zip(order, order[1:]):
+            rep.count("hist_order:%s_then_%s" % (a, b))
+        changed = sum(len(s_["ops"]) for s_ in h.log[1:])
+        rep.count("hist_ops_between_draws", changed)
+        if k % 12 == 0 and not failed:
+            rep.sample(dict(stream="draw_history", family=h.family, diagram=str(h.diagram)[:200],
+                            steps=h.log), cap=5)
+        rep.case("hist %s %r" % (h.name or h.seed, h.log), changed >= 1 and len(backends) >= 2)
 
 
 def run(tier, seed, replay=None):
@@ -490,7 +588,11 @@ def run(tier, seed, replay=None):
                 "spiders 0-3 -> 0-3), each drawn by both back-ends with one keyword-argument dict of a "
                 "schedule (defaults, each non-default value alone, random 2-6 combinations); non-trivial = "
                 ">= 2 boxes drawn in >= 2 different ways (spider shape/colour, plain colour, wires, "
-                "brakets/controlled/discard/measure); distinct by repr + kwargs")
+                "brakets/controlled/discard/measure); distinct by repr + kwargs.  draw_history stream: "
+                "a diagram of the attr generator (plain monoidal boxes most often, every other family too) "
+                "drawn 2-4 times (tikz / matplotlib / diagram2nx / tensored with itself / equation) with "
+                "0-1 attribute operations before the first draw and 1-3 between draws on boxes that are "
+                "not library singletons; non-trivial = >= 2 draws with >= 1 attribute operation between them")
     rep.partial = [
         "back-ends (MatBackend, TikzBackend, draw, draw_box, quantum.drawing, equation, pregroup_draw): "
         "oracle only (matplotlib and file output are outside the model) - rendered without raising on the "
@@ -498,6 +600,11 @@ def run(tier, seed, replay=None):
         "artists are inspected (every spider once at its layout position with its shape/colour/label, "
         "every plain box with polygon and label); only MatBackend.draw_spiders' grouping of spiders into "
         "calls is modelled (Model/Spiders.lean, theorems draw_spiders_*, stream attr_spiders)",
+        "statelessness of drawing (the same objects drawn again after attribute changes give the picture "
+        "of an equal fresh diagram; drawing leaves the user's boxes unchanged) is ORACLE ONLY: the Lean "
+        "layout model is a pure function of the diagram value, object identity and attribute dicts of "
+        "Python boxes (what monoidal.Box.downgrade copies and drawing.add_drawing_attributes writes to) "
+        "are not modelled - stream draw_history plus the unchanged-boxes check in every drawing stream",
         "bubbles (Diagram.open_bubbles, bubble_opening/closing branches of add_box) are not modelled: "
         "oracle only, on generated diagrams with bubbles whose dom/cod are overridden in every way "
         "(node census, every port wired, edges down, open wires increasing, both back-ends)",
@@ -575,6 +682,19 @@ def run(tier, seed, replay=None):
         drv.close()
 
     nx_jobs = []        # (stream, case, driver line, real answer)
+    changed_reported = set()
+
+    def unchanged(what, before, d, case):
+        """A drawing is a function of the diagram: `what` must leave the user's boxes as they were
+        (`before` = attrlib.state([d]) taken before the first drawing call; one report per case)."""
+        rep.count("unchanged_boxes_checked:" + what)
+        diff = attrlib.state_diff(before, attrlib.state([d]))
+        if diff and id(d) not in changed_reported:
+            changed_reported.add(id(d))
+            rep.count("changed_boxes:" + what)
+            if rep.dist.get("changed_boxes:" + what, 0) <= 3:     # the same report 600 times helps nobody
+                rep.fail("%s_changes_user_boxes" % what, dict(case, diagram=repr(d)[:1500]),
+                         "; ".join(diff[:6]))
     tmpdir = tempfile.mkdtemp(prefix="c20_render_")
     assert not tmpdir.startswith("/repo") and not tmpdir.startswith(os.path.dirname(
         os.path.dirname(os.path.abspath(__file__))))
@@ -601,6 +721,7 @@ def run(tier, seed, replay=None):
                     rep.disagree("layout", case, real, model[:300])
                 continue
             # ---- layout on the real code
+            user_state = attrlib.state([d])
             try:
                 graph, keys, pos, edges = real_layout(d)
             except AssertionError:
@@ -614,6 +735,7 @@ def run(tier, seed, replay=None):
                 if kind != "raw":
                     rep.fail("diagram2nx_raises", case, repr(exc))
                 continue
+            unchanged("diagram2nx", user_state, d, case)
             scans, want_nodes, want_edges = wiring(d)
             real = canon(pos, edges, scans)
             rep.count("result:ok")
@@ -720,6 +842,7 @@ def run(tier, seed, replay=None):
                     os.remove(os.path.join(tmpdir, f))
             except Exception as exc:
                 rep.fail("tikz_backend_raises", dict(case, diagram=repr(d)[:1500]), repr(exc))
+            unchanged("tikz_backend", user_state, d, case)
             try:
                 if n_png is None or rendered_png < n_png:
                     path = os.path.join(tmpdir, "d%d.png" % idx)
@@ -735,6 +858,7 @@ def run(tier, seed, replay=None):
                 rep.fail("matplotlib_backend_raises", dict(case, diagram=repr(d)[:1500]), repr(exc))
             finally:
                 plt.close("all")
+            unchanged("matplotlib_backend", user_state, d, case)
         phase("layout_nx_render")
         # ---------------- bubbles (oracle only: the bubble branches of add_box are not modelled)
         n_bub = 140 if not thorough else 900
@@ -755,6 +879,7 @@ def run(tier, seed, replay=None):
             known = any(sig_ == bubblelib.F34 for sig_, _ in fails)
             rep.case("bubble " + repr(d), False)
             for backend in ("tikz", "matplotlib"):
+                user_state = attrlib.state([d])
                 try:
                     if backend == "tikz":
                         path = os.path.join(tmpdir, "b%d.tikz" % k)
@@ -780,10 +905,13 @@ def run(tier, seed, replay=None):
                              case, repr(exc)[:300])
                 finally:
                     plt.close("all")
+                unchanged("bubble_%s_backend" % backend, user_state, d, case)
         phase("bubbles")
         # its own generator, derived from the seed: the other streams keep their cases
         attr_stream(rep, random.Random((seed << 8) ^ 0xA77), thorough, tmpdir, plt)
         phase("drawing_attributes")
+        history_stream(rep, random.Random((seed << 8) ^ 0x4157), thorough, tmpdir, plt)
+        phase("drawing_histories")
     finally:
         shutil.rmtree(tmpdir, ignore_errors=True)
     rep.count("render:tikz_files", rendered_tikz)
